@@ -1,14 +1,19 @@
 import MythVerif.Proofs.WsQueueTsoTac
-/-! Preservation lemmas of the TSO invariant (drain of a thief's `base` store). -/
+/-! Preservation lemmas of the TSO invariant (drain of a thief's `base` store); the possible
+    contents of a non-empty buffer of a participant other than the owner. -/
 namespace MythVerif.WsqTso
 open MythVerif.Wsq
 
 
-/-- a thief's buffer only ever holds one `base` store -/
+/-- a non-empty buffer of a thief / passer: it holds the lock and the buffer is one pending `base`
+    store of take, or the pending stores of trypass -/
 theorem thief_buf_shape (s : St) (h : Inv s) (p : Pid) (st : Sto) (rest : List Sto) (hb : s.bufT p = st :: rest) :
-    rest = [] ∧ s.lock = .thief p ∧
-    ((∃ b, s.tpc p = .tkf b ∧ st = .base (b + 1) ∧ s.lb = b ∧ s.tr = false) ∨
-     (s.tpc p = .tk6 ∧ st = .base s.lb ∧ s.tr = true)) := by
+    s.lock = .thief p ∧
+    ((∃ b, s.tpc p = .tkf b ∧ st = .base (b + 1) ∧ rest = [] ∧ s.lb = b ∧ s.tr = false) ∨
+     (s.tpc p = .tk6 ∧ st = .base s.lb ∧ rest = [] ∧ s.tr = true) ∨
+     (∃ e, s.tpc p = .tp3 e ∧ st = .ptr (s.lb - 1) (some e) ∧ rest = []) ∨
+     (∃ e ok, s.tpc p = .tp4 ok ∧ st = .ptr (s.lb - 1) (some e) ∧ rest = [.baseI (s.lb - 1) e]) ∨
+     (∃ e ok, s.tpc p = .tp4 ok ∧ st = .baseI (s.lb - 1) e ∧ rest = [] ∧ s.ptr (s.lb - 1) = some e)) := by
   have hl := h.lockT p
   cases hpc : s.tpc p
   case tkf b =>
@@ -21,36 +26,47 @@ theorem thief_buf_shape (s : St) (h : Inv s) (p : Pid) (st : Sto) (rest : List S
     simp only [Tk6Shape, hb] at this
     simp [hpc, thiefLocked] at hl
     grind
+  case tp3 e =>
+    have := h.tp3 p e hpc
+    simp only [Pu2Shape, hb] at this
+    simp [hpc, thiefLocked] at hl
+    grind
+  case tp4 ok =>
+    have := h.tp4 p ok hpc
+    simp only [InsShape, hb] at this
+    simp [hpc, thiefLocked] at hl
+    grind
   all_goals (have := h.tbufE p (by simp [hpc, mayBuf]); rw [hb] at this; cases this)
 
+theorem thief_owner_unlocked (s : St) (h : Inv s) (p : Pid) (hl : s.lock = .thief p) : ownerLocked s.opc = false := by
+  cases ho : ownerLocked s.opc with
+  | false => rfl
+  | true => have := h.lockO.2 ho; rw [hl] at this; cases this
+
 set_option maxHeartbeats 4000000 in
-theorem f_T (s s' : St) (p : Pid) : Inv s → step s (.flushT p) = some s' → Inv s' := by
-  intro h hs
-  simp only [step] at hs
-  split at hs
-  · rename_i st rest hb
-    obtain ⟨hr, hl, hcase⟩ := thief_buf_shape s h p st rest hb
-    subst hr
-    simp at hs; subst hs
-    have hnot : ownerLocked s.opc = false := by
-      cases ho : ownerLocked s.opc with
-      | false => rfl
-      | true => have := h.lockO.2 ho; rw [hl] at this; cases this
-    rcases hcase with ⟨b, hpc, hst, hlb, htr⟩ | ⟨hpc, hst, htr⟩
-    · subst hst
-      simp only [applySto]
-      have hd : decide (b + 1 = s.lb + 1) = true := by simp [hlb]
-      rw [hd]
-      cases h
-      simp only [ownerLocked, carry, resetting, ownerFlight] at *
-      tso_finish3
-    · subst hst
-      simp only [applySto]
-      have hd : decide (s.lb = s.lb + 1) = false := by simp; omega
-      rw [hd]
-      cases h
-      simp only [ownerLocked, carry, resetting, ownerFlight] at *
-      tso_finish3
-  · simp at hs
+theorem f_T_inc (s : St) (p : Pid) (b : Int) : Inv s → s.lock = .thief p → s.bufT p = [.base (b + 1)] →
+    s.tpc p = .tkf b → s.lb = b → s.tr = false →
+    Inv (applySto { s with bufT := upd s.bufT p [] } (.base (b + 1))) := by
+  intro h hl hb hpc hlb htr
+  have hnot := thief_owner_unlocked s h p hl
+  simp only [applySto]
+  have hd : decide (b + 1 = s.lb + 1) = true := by simp [hlb]
+  rw [hd]
+  cases h
+  simp only [ownerLocked, carry, resetting, ownerFlight] at *
+  tso_finish3
+
+set_option maxHeartbeats 4000000 in
+theorem f_T_rb (s : St) (p : Pid) : Inv s → s.lock = .thief p → s.bufT p = [.base s.lb] →
+    s.tpc p = .tk6 → s.tr = true →
+    Inv (applySto { s with bufT := upd s.bufT p [] } (.base s.lb)) := by
+  intro h hl hb hpc htr
+  have hnot := thief_owner_unlocked s h p hl
+  simp only [applySto]
+  have hd : decide (s.lb = s.lb + 1) = false := by simp; omega
+  rw [hd]
+  cases h
+  simp only [ownerLocked, carry, resetting, ownerFlight] at *
+  tso_finish3
 
 end MythVerif.WsqTso
